@@ -262,8 +262,14 @@ def record_codecs(*specs):
     used for the recursive field TraceED.calls: Vec<TraceED>, which Verus cannot define through trait dispatch)"""
     recs = []
     forced_leaves = [_norm_ty(sp[5:]) for sp in specs if sp.startswith("leaf=")]
+    # proved=<Type>:<lemma> : a base type whose codec is proved in the unit itself (not an assumed leaf); <lemma>() gives its law
+    proved = {}
     for sp in specs:
-        if sp.startswith("leaf="):
+        if sp.startswith("proved="):
+            t, lem = sp[7:].split(":")
+            proved[_norm_ty(t)] = lem
+    for sp in specs:
+        if sp.startswith("leaf=") or sp.startswith("proved="):
             continue
         f, n = sp.split(":")
         recs.append(_record_parse(f, n))
@@ -279,7 +285,7 @@ def record_codecs(*specs):
                 leaves.append(t)
         elif k:
             visit(inner)
-        elif t not in names and t not in ("u8", "u32", "u64") and t not in leaves:
+        elif t not in names and t not in ("u8", "u32", "u64") and t not in leaves and t not in proved:
             leaves.append(t)
     for r in recs:
         for it in r["enc"]:
@@ -401,6 +407,7 @@ def record_codecs(*specs):
             if it[2] not in tys:
                 tys.append(it[2])
         L = ["// C14: %s decodes back to exactly what was encoded and consumes exactly the bytes that were produced" % S,
+             "#[verifier::spinoff_prover]", "#[verifier::rlimit(40)]",
              "pub proof fn prop_record_%s()" % S,
              "    requires " + ", ".join("codec_law::<%s>()" % t for t in tys) + ",",
              "    ensures codec_law::<%s>()," % S, "{"]
@@ -458,6 +465,9 @@ def record_codecs(*specs):
         elif t in ("u8", "u32", "u64"):
             derived.append(("law", t))
             derived.append(("call", "lemma_codec_%s(); lemma_law_of_ok::<%s>();" % (t, t)))
+        elif t in proved:
+            derived.append(("law", t))
+            derived.append(("call", "%s();" % proved[t]))
         else:
             derived.append(("law", t))
             if t not in assumed:
